@@ -317,7 +317,8 @@ class Exec:
 
     MAX_PATHS = 4000
 
-    def __init__(self, registry: Registry, contract: Contract, fn_ast=None, feas_timeout=400):
+    def __init__(self, registry: Registry, contract: Contract, fn_ast=None, feas_timeout=400, lenient=False):
+        self.lenient = lenient
         self.reg = registry
         self.c = contract
         self.mod = source.load(contract.file)
